@@ -278,6 +278,44 @@ theorem executable_steps_sound (C L : Nat) (s t : Srv) :
     · cases h
   · intro k h; unfold doBlock at h; injection h with h; subst h; exact FStep.block _ k
 
+/-- Every macro-step the driver executes against the real server is a run of the step relation. -/
+theorem macro_steps_are_runs (C L : Nat) (s : Srv) :
+    Reach (FStep C L) s (submitOne C s) ∧ Reach (FStep C L) s (completeOne L s) ∧
+    (∀ k, Reach (FStep C L) s (submitHeld C k s)) ∧ Reach (FStep C L) s (releaseAll L s) ∧
+    (∀ n, Reach (FStep C L) s (fill C L n s)) ∧ Reach (FStep C L) s (reverifyAll s) ∧
+    Reach (FStep C L) s (backAll L s) ∧ (∀ k, Reach (FStep C L) s (blockVerified L k s)) := by
+  have a2f : ∀ a b, AStep C L a b → FStep C L a b := fun a b h => FStep.re a b (RStep.adm a b h)
+  have r2f : ∀ a b, RStep C L a b → FStep C L a b := fun a b h => FStep.re a b h
+  have hSnap : ∀ s, Reach (FStep C L) s (orStay doSnapshot s) :=
+    orStay_reach _ (fun s t h => a2f s t ((executable_steps_sound C L s t).1 h))
+  have hCheck : ∀ s, Reach (FStep C L) s (orStay (doCheck C) s) :=
+    orStay_reach _ (fun s t h => a2f s t ((executable_steps_sound C L s t).2.1 h))
+  have hTake : ∀ s, Reach (FStep C L) s (orStay doTake s) :=
+    orStay_reach _ (fun s t h => a2f s t ((executable_steps_sound C L s t).2.2.1 h))
+  have hLand : ∀ s, Reach (FStep C L) s (orStay doLand s) :=
+    orStay_reach _ (fun s t h => a2f s t ((executable_steps_sound C L s t).2.2.2.1 h))
+  have hRel : ∀ s, Reach (FStep C L) s (orStay (doRelease L) s) :=
+    orStay_reach _ (fun s t h => a2f s t ((executable_steps_sound C L s t).2.2.2.2.1 h))
+  have hRemain : ∀ s, Reach (FStep C L) s (orStay doRemain s) :=
+    orStay_reach _ (fun s t h => r2f s t ((executable_steps_sound C L s t).2.2.2.2.2.1 h))
+  have hReq : ∀ s, Reach (FStep C L) s (orStay doRequeue s) :=
+    orStay_reach _ (fun s t h => r2f s t ((executable_steps_sound C L s t).2.2.2.2.2.2.1 h))
+  have hBack : ∀ s, Reach (FStep C L) s (orStay (doBack L) s) :=
+    orStay_reach _ (fun s t h => r2f s t ((executable_steps_sound C L s t).2.2.2.2.2.2.2.1 h))
+  have hBlock : ∀ k s, Reach (FStep C L) s (orStay (doBlock k) s) := fun k =>
+    orStay_reach _ (fun s t h => (executable_steps_sound C L s t).2.2.2.2.2.2.2.2 k h)
+  have hSub : ∀ s, Reach (FStep C L) s (submitOne C s) := fun s =>
+    ((hSnap s).trans (hCheck _)).trans (hTake _)
+  have hComp : ∀ s, Reach (FStep C L) s (completeOne L s) := fun s =>
+    ((hLand s).trans (hRel _)).trans (hTake _)
+  have hBackAll : ∀ s, Reach (FStep C L) s (backAll L s) := fun s => iter_reach _ hBack _ s
+  refine ⟨hSub s, hComp s, fun k => iter_reach _ hSub k s, iter_reach _ hComp _ s,
+    fun n => iter_reach _ (fun t => (hSub t).trans (hComp _)) n s, ?_, hBackAll s, fun k => ?_⟩
+  · unfold reverifyAll
+    exact (hRemain s).trans (iter_reach _ hReq _ _)
+  · unfold blockVerified
+    exact (hBlock k s).trans (hBackAll _)
+
 /-! ### Non-vacuity -/
 
 example : (run [Op.add ⟨"a", [⟨3, 0, 0⟩, ⟨3, 1, 0⟩]⟩, Op.add ⟨"a", []⟩, Op.add ⟨"b", [⟨1, 1, 0⟩]⟩] : Pool String).length = 2 := by
